@@ -46,6 +46,12 @@ pub struct RefJob {
     pub open: bool,
     pub tasks: BTreeMap<u32, RefTask>,
     pub completed: bool,
+    /// failure limit of the job (JobOpen / first Submit)
+    pub max_fails: Option<u32>,
+    /// crash limit of the job's tasks as the scenario language writes it (first task seen)
+    pub crash_limit: Option<String>,
+    /// a cancel of the job was recorded
+    pub cancel_seen: bool,
 }
 
 #[derive(Debug, Clone, Default)]
@@ -99,9 +105,20 @@ pub fn reference_fold(records: &[Event]) -> RefState {
                 let rq: SubmitRequest = serialized_desc.deserialize().expect("submit desc");
                 r.job_ids.insert(job_id.as_num());
                 if *closed_job {
-                    r.jobs.insert(job_id.as_num(), RefJob::default());
+                    r.jobs.insert(job_id.as_num(), RefJob { max_fails: rq.job_desc.max_fails, ..Default::default() });
                 }
                 if let Some(j) = r.jobs.get_mut(&job_id.as_num()) {
+                    if j.crash_limit.is_none() {
+                        let cl = match &rq.submit_desc.task_desc {
+                            JobTaskDescription::Array { task_desc, .. } => Some(task_desc.crash_limit.clone()),
+                            JobTaskDescription::Graph { tasks, .. } => tasks.first().map(|t| t.task_desc.crash_limit.clone()),
+                        };
+                        j.crash_limit = cl.map(|c| match c {
+                            tako::gateway::CrashLimit::NeverRestart => "never".to_string(),
+                            tako::gateway::CrashLimit::Unlimited => "unlimited".to_string(),
+                            tako::gateway::CrashLimit::MaxCrashes(n) => n.to_string(),
+                        });
+                    }
                     match &rq.submit_desc.task_desc {
                         JobTaskDescription::Array { ids, .. } => {
                             for id in ids.iter() {
@@ -143,12 +160,13 @@ pub fn reference_fold(records: &[Event]) -> RefState {
                     }
                 }
             }
-            EventPayload::JobOpen(j, _) => {
+            EventPayload::JobOpen(j, desc) => {
                 r.job_ids.insert(j.as_num());
                 r.jobs.insert(
                     j.as_num(),
                     RefJob {
                         open: true,
+                        max_fails: desc.max_fails,
                         ..Default::default()
                     },
                 );
@@ -163,7 +181,12 @@ pub fn reference_fold(records: &[Event]) -> RefState {
                     job.completed = true;
                 }
             }
-            EventPayload::JobIdle(_) | EventPayload::JobCancel { .. } | EventPayload::TaskNotify(_) => {}
+            EventPayload::JobCancel { job_id, .. } => {
+                if let Some(job) = r.jobs.get_mut(&job_id.as_num()) {
+                    job.cancel_seen = true;
+                }
+            }
+            EventPayload::JobIdle(_) | EventPayload::TaskNotify(_) => {}
             EventPayload::TaskStarted {
                 task_id,
                 instance_id,
@@ -188,6 +211,9 @@ pub fn reference_fold(records: &[Event]) -> RefState {
             EventPayload::TasksCanceled { task_ids } => {
                 for t in task_ids {
                     set_status(&mut r, *t, "canceled");
+                    if let Some(job) = r.jobs.get_mut(&t.job_id().as_num()) {
+                        job.cancel_seen = true;
+                    }
                 }
             }
             EventPayload::TasksAborted { task_ids } => {
@@ -1223,6 +1249,39 @@ pub struct JournalStats {
 }
 
 pub fn run(tier: &str, deadline: Instant) -> (Vec<Violation>, JournalStats) {
+    run_with(tier, deadline, &[], false)
+}
+
+/// Which journal scenarios also get a full exploration from their restored states.
+fn restart_exploration_wanted(name: &str, quick: bool) -> bool {
+    if quick {
+        matches!(name, "journal-life" | "journal-kill" | "journal-open" | "journal-cancel")
+    } else {
+        !name.starts_with("journal-grid-") && !name.contains("-w2-")
+    }
+}
+
+/// The scenario of an exploration that starts after a restart from `journal_bytes`: the workers of
+/// the original scenario connect afresh, one new client submits a job and opens another, a second
+/// one cancels the (restored) job 1; one worker loss and one failing task are allowed.
+fn restart_exploration_scenario(sc: &Scenario, k: usize, journal_bytes: &[u8], quick: bool) -> Scenario {
+    let mut s = restore_scenario(sc);
+    s.name = format!("{}+restart@{k}", sc.name);
+    s.journal = false;
+    s.restore_journal_hex = Some(crate::sim::system::hex(journal_bytes));
+    s.clients.push(vec![Req::Cancel(1)]);
+    s.budgets = Budgets { kill: 1, err: 1, join: 0, total: 2 };
+    s.kill_reasons = vec!["ConnectionLost".into()];
+    s.depth_bound = if quick { 8 } else { 11 };
+    s.max_states = 40_000;
+    s
+}
+
+/// `run` plus, when `restart_props` is not empty (or `check_panics`), Engine A started from restored
+/// states: for every chosen journal scenario, the longest journal it writes (first in the order
+/// of its record tags among equally long ones) is cut after every record and the closed cluster
+/// is explored from the server the real restore sequence builds from that prefix.
+pub fn run_with(tier: &str, deadline: Instant, restart_props: &[crate::sim::monitors::Prop], check_panics: bool) -> (Vec<Violation>, JournalStats) {
     let quick = tier != "thorough";
     let mut all_found: Vec<Violation> = Vec::new();
     let mut stats = JournalStats {
@@ -1261,6 +1320,79 @@ pub fn run(tier: &str, deadline: Instant) -> (Vec<Violation>, JournalStats) {
         stats.machinery.extend(r.machinery_errors.iter().cloned());
         let journals: Vec<(Vec<String>, Vec<Ev>)> = r.journals.into_iter().collect();
         stats.journals += journals.len() as u64;
+        // ---- exploration from restored states ----
+        if (!restart_props.is_empty() || check_panics) && restart_exploration_wanted(&sc.name, quick) {
+            let chosen = journals
+                .iter()
+                .max_by(|a, b| a.0.len().cmp(&b.0.len()).then_with(|| b.0.cmp(&a.0)))
+                .cloned();
+            if let Some((_, history)) = chosen {
+                let sc_rc = Rc::new(sc.clone());
+                if let Ok(sys) = replay_plain(&sc_rc, &history) {
+                    let records = sys.journal_records.clone();
+                    let _ = catch_unwind(AssertUnwindSafe(move || sys.dispose()));
+                    crate::common::take_swallowed_panic();
+                    let scratch = Scratch::new("rex");
+                    let full = scratch.path.join("full.journal");
+                    let offsets = write_journal(&full, &records);
+                    let bytes = std::fs::read(&full).unwrap_or_default();
+                    let mut n_starts = 0u64;
+                    for k in 1..=records.len() {
+                        if Instant::now() > deadline {
+                            stats.capped = true;
+                            break;
+                        }
+                        let prefix = &bytes[..offsets[k] as usize];
+                        // only prefixes the real restore accepts (anything else is the boundary check's business)
+                        let probe = scratch.path.join("probe.journal");
+                        std::fs::write(&probe, prefix).unwrap();
+                        match restore_from(&sc, &probe) {
+                            RestoreOutcome::Ok(b) => {
+                                let (s0, _) = *b;
+                                let _ = catch_unwind(AssertUnwindSafe(move || s0.dispose()));
+                                crate::common::take_swallowed_panic();
+                            }
+                            _ => {
+                                crate::common::take_swallowed_panic();
+                                continue;
+                            }
+                        }
+                        let rsc = restart_exploration_scenario(&sc, k, prefix, quick);
+                        let rr = explore(
+                            &rsc,
+                            &ExploreOpts {
+                                props: restart_props.to_vec(),
+                                check_panics,
+                                threads: crate::common::n_threads(),
+                                deadline: Some(deadline),
+                                audit_every: 1000,
+                                collect_journals: false,
+                                check_livelock: false,
+                            },
+                        );
+                        n_starts += 1;
+                        stats.states += rr.states;
+                        stats.transitions += rr.transitions;
+                        stats.executions += rr.executions;
+                        stats.machinery.extend(rr.machinery_errors.iter().cloned());
+                        for v in rr.violations {
+                            // confirm by re-execution with the memos off
+                            let props: Vec<crate::sim::monitors::Prop> = crate::sim::monitors::Prop::parse(&v.property).into_iter().collect();
+                            if crate::checks::confirm(&v, &props) {
+                                let mut v = v;
+                                v.site = format!("{} [after restart]", v.site);
+                                if !all_found.iter().any(|x| x.signature() == v.signature()) {
+                                    all_found.push(v);
+                                }
+                            } else {
+                                stats.machinery.push(format!("restart exploration: {} did not reproduce", v.signature()));
+                            }
+                        }
+                    }
+                    stats.per_scenario.push(json!({"scenario": format!("{}+restart", sc.name), "restored_starts_explored": n_starts, "journal_records": records.len()}));
+                }
+            }
+        }
         let seen_prefixes: Arc<Mutex<HashSet<Vec<String>>>> = Arc::new(Mutex::new(HashSet::new()));
         let work = Arc::new(Mutex::new(journals));
         let results: Arc<Mutex<(Vec<Violation>, u64, u64, u64, u64, Vec<serde_json::Value>)>> =
